@@ -221,7 +221,8 @@ def replay(path):
     exe = build.ensure_driver(body["driver"], body.get("flavor", "asan"), body.get("extra_flags"), body.get("extra_srcs"), body.get("plain_c"))
     env = dict(os.environ)
     env.update(build.SAN_ENV)
-    cmd = [exe] + body["args"] + ["--only", str(body["case"])]
+    # a record without a case index (unlisted repetitions, guard-of-repaired-defect-hit) is replayed by running its whole sub-space again
+    cmd = [exe] + body["args"] + (["--only", str(body["case"])] if body.get("case") is not None else [])
     print("$", " ".join(cmd))
     print("recorded:", json.dumps(body["violation"])[:1500])
     return subprocess.call(cmd, env=env)
